@@ -36,14 +36,14 @@ from cohdl import std
 
 
 def tsrc(kind, w):
-    return {'bit': 'Bit', 'bv': f'BitVector[{w}]', 'u': f'Unsigned[{w}]', 's': f'Signed[{w}]'}[kind]
+    return {'bit': 'Bit', 'bool': 'bool', 'bv': f'BitVector[{w}]', 'u': f'Unsigned[{w}]', 's': f'Signed[{w}]'}[kind]
 
 
 def dsrc(kind, w, v):
     """source of a default value"""
     if v is None:
         return None
-    if kind == 'bit':
+    if kind in ('bit', 'bool'):
         return 'True' if v else 'False'
     if kind == 'bv':
         return f"'{v:0{w}b}'"
@@ -283,6 +283,16 @@ def render_cohdl(spec, cname):
         q = 'Signal' if is_sig else 'Variable'
         init = '' if d is None else '[' + ', '.join(dsrc(k, w, x) for x in d) + '], '
         L.append(f"        {n} = {q}[Array[{tsrc(k, w)}, {cnt}]]({init}name='{n}')")
+    cv = spec.get('ctrl_vector')
+    if cv:
+        # clock and reset reach the context as two elements of one vector signal (same root object)
+        # (its initial value keeps the reset inactive: an undefined level at time 0 would fire an active-low asynchronous reset)
+        low = any(c.get('reset') and c['reset'].get('active_low') and c['reset']['sig'] == cv for c in spec['ctxs'])
+        L.append(f"        ctrl = Signal[BitVector[2]]('{'10' if low else '00'}', name='ctrl')")
+        L.append("        @std.concurrent")
+        L.append("        def ctrl_drv():")
+        L.append("            ctrl[0] <<= self.clk")
+        L.append(f"            ctrl[1] <<= self.{cv}")
     for ctx in spec['ctxs']:
         for h in ctx.get('helpers', []):
             L += render_function(False, h['name'], h['params'], h['body'], False, 2)
@@ -292,10 +302,10 @@ def render_cohdl(spec, cname):
             L.append("        @std.concurrent")
             L += render_function(False, ctx['name'], '', ctx['body'], False, 2)
             continue
-        args = ["std.Clock(self.clk)"]
+        args = ["std.Clock(ctrl[0])" if cv else "std.Clock(self.clk)"]
         rs = ctx.get('reset')
         if rs:
-            a = [f"self.{rs['sig']}"]
+            a = ["ctrl[1]" if cv == rs['sig'] else f"self.{rs['sig']}"]
             if rs.get('active_low'):
                 a.append("active_low=True")
             if rs.get('is_async'):
